@@ -538,9 +538,12 @@ class Messaging(object):
         # Keep track of failer messages to retry later
         self._failed = []
         # post_msg is called from several threads (the agent's thread, the
-        # communication layer's thread(s)) : retrying failed messages must be
-        # exclusive to keep them in order and send them exactly once.
-        self._failed_lock = RLock()
+        # communication layer's thread(s)) : retrying the failed messages of
+        # a computation must be exclusive to keep them in order and send them
+        # exactly once. One lock for each target computation: sending may
+        # call the Messaging of another agent (in-process communication),
+        # which must never wait for a lock held while sending to us.
+        self._failed_locks = {}
 
         # Containers for metrics on sent messages:
         self.count_ext_msg = defaultdict(lambda: 0)  # type: Dict[str, int]
@@ -662,7 +665,8 @@ class Messaging(object):
             self._retry_failed(dest_computation, dest_agent)
             return
 
-        if self._failed and not _is_retry:
+        if not _is_retry and any(
+                f[1] == dest_computation for f in list(self._failed)):
             # Messages posted before the registration of the computation must
             # be sent before this one.
             self._retry_failed(dest_computation, dest_agent)
@@ -738,7 +742,8 @@ class Messaging(object):
     def _retry_failed(self, computation: str, agent: str):
         # A failed message is only removed once it has been posted, so that
         # a thread that sees no failed message can safely post a newer one.
-        with self._failed_lock:
+        lock = self._failed_locks.setdefault(computation, RLock())
+        with lock:
             for failed in self._failed[:]:
                 src, dest, msg, msg_type, on_error = failed
                 if dest != computation:
